@@ -20,8 +20,10 @@ import (
 func init() { fw.Register("C13", "exploration", Run) }
 
 const kfForeign = "C13-relevant-kind-of-a-foreign-api-group-is-analysed"
+const kfItems = "C13-top-level-items-of-any-kind-are-read-as-a-list"
 
 type junk struct {
+	flat     string // for a document of an unused kind with a top-level `items` field: the documents the reader takes out of it
 	native   string // for a document of a foreign API group whose kind the tool reads: the apiVersion the tool takes it for
 	name     string
 	ext      string // file extension when placed as its own file
@@ -34,6 +36,10 @@ type junk struct {
 var junks = []junk{
 	{name: "configmap", ext: ".yaml", document: true, content: "apiVersion: v1\nkind: ConfigMap\nmetadata: {name: cm, namespace: ns1}\ndata: {k: v}\n"},
 	{name: "unknown-crd-kind", ext: ".yaml", document: true, content: "apiVersion: example.com/v1\nkind: Widget\nmetadata: {name: wd, namespace: ns1}\nspec: {size: 3}\n"},
+	// a custom resource that keeps a copy of a Pod manifest in a top-level field called items
+	{name: "custom-resource-with-items", ext: ".yaml", document: true,
+		content: "apiVersion: backups.example.com/v1\nkind: Backup\nmetadata: {name: zzbackup, namespace: ns1}\nitems:\n- apiVersion: v1\n  kind: Pod\n  metadata: {name: zzghost, namespace: ns1, labels: {app: zzghost}}\n  spec: {containers: [{name: c, image: x}]}\n",
+		flat:    "apiVersion: v1\nkind: Pod\nmetadata: {name: zzghost, namespace: ns1, labels: {app: zzghost}}\nspec: {containers: [{name: c, image: x}]}\n"},
 	{name: "txt-non-manifest", ext: ".txt", content: "this is not a manifest\n  : : :\n"},
 	{name: "yaml-syntax-error-file", ext: ".yaml", severe: true, marker: "zzbroken", content: "apiVersion: v1\nkind: Pod\nmetadata:\n  name: zzbroken\n   labels: [unclosed\n"},
 	{name: "yaml-without-kind", ext: ".yaml", document: true, severe: true, marker: "zznokind", content: "apiVersion: v1\nmetadata: {name: zznokind}\n"},
@@ -110,6 +116,9 @@ func writeDir(dir string, w *wm.World, cs Case) error {
 		if cs.nativeSpelling && j.native != "" {
 			lines := strings.SplitN(j.content, "\n", 2)
 			j.content = "apiVersion: " + j.native + "\n" + lines[1]
+		}
+		if cs.nativeSpelling && j.flat != "" {
+			j.content = j.flat
 		}
 		switch placements[cs.Place[k]] {
 		case "own-file-first":
@@ -377,6 +386,9 @@ func eval(cs Case, x *fw.Rec) {
 					}
 					if nat.err == nil && nat.relation == got.relation {
 						known = kfForeign
+						if hasFlat(cs) {
+							known = kfItems
+						}
 					}
 				}
 				os.RemoveAll(ndir)
@@ -394,7 +406,16 @@ func eval(cs Case, x *fw.Rec) {
 
 func hasForeign(cs Case) bool {
 	for _, ji := range cs.Junk {
-		if junks[ji].native != "" {
+		if junks[ji].native != "" || junks[ji].flat != "" {
+			return true
+		}
+	}
+	return false
+}
+
+func hasFlat(cs Case) bool {
+	for _, ji := range cs.Junk {
+		if junks[ji].flat != "" {
 			return true
 		}
 	}
@@ -451,10 +472,10 @@ func Run(r *fw.Run) {
 		prev := -1
 		for k := 0; k < n; k++ {
 			ji := c.Choose(len(junks), "junk")
-			if junks[ji].native != "" && cmd == "diff-both" {
+			if (junks[ji].native != "" || junks[ji].flat != "") && cmd == "diff-both" {
 				c.Skip() // the recorded finding is classified on the one-sided commands
 			}
-			if ji < prev || (ji == prev && junks[ji].native != "") {
+			if ji < prev || (ji == prev && (junks[ji].native != "" || junks[ji].flat != "")) {
 				c.Skip() // unordered subsets; the same foreign-group document twice would be two policies of one name
 			}
 			prev = ji
